@@ -3,4 +3,5 @@
    overwrites this module in its staging directory with VERIF_SEED-derived values. *)
 PickSeed == 1
 PickMod == 40
+PickModL == 20      \* layout histories of the long-series family: every PickModL-th (by hash) is emitted
 =============================================================================
